@@ -269,6 +269,34 @@ def _loop_returns_to_breaks(stmts, target):
     return out
 
 
+def _find_class(loader, rp, name, depth=0):
+    """(relpath, ClassDef) of class `name` as seen from module rp, following `from .x import name` / `from .x import *` re-exports"""
+    if depth > 3:
+        return None
+    tree = loader(rp)
+    if tree is None:
+        return None
+    for ch in tree.body:
+        if isinstance(ch, ast.ClassDef) and ch.name == name:
+            return rp, ch
+    for st in tree.body:
+        if isinstance(st, ast.ImportFrom) and any(a.name in ('*', name) for a in st.names):
+            if st.level:
+                base = os.path.dirname(rp)
+                for _ in range(st.level - 1):
+                    base = os.path.dirname(base)
+                mp = os.path.join(base, *(st.module.split('.') if st.module else []))
+            elif st.module and st.module.startswith('singlecellmultiomics'):
+                mp = st.module.replace('.', '/')
+            else:
+                continue
+            for rp2 in (mp + '.py', mp + '/__init__.py'):
+                r = _find_class(loader, rp2, name, depth + 1)
+                if r is not None:
+                    return r
+    return None
+
+
 class Inliner:
     def __init__(self, tree, relpath, loader=None):
         self.tree = tree
@@ -327,6 +355,26 @@ class Inliner:
                         modpath = st.module.replace('.', '/')
                     cand = [modpath + '.py', modpath + '/__init__.py']
                     for al in st.names:
+                        # an imported base class: its NEW methods are helpers of the classes of this module that derive from it
+                        alias_ = al.asname or al.name
+                        if al.name != '*' and any(isinstance(c_, ast.ClassDef) and any(isinstance(b_, ast.Name) and b_.id == alias_ for b_ in c_.bases) for c_ in ast.walk(tree)):
+                            for rp0 in cand:
+                                found = _find_class(loader, rp0, al.name)
+                                if found is None:
+                                    continue
+                                rp, ch = found
+                                rf = ref_functions().get(rp)
+                                if rf is None:
+                                    continue
+                                if True:
+                                    if True:
+                                        for mth in ch.body:
+                                            if isinstance(mth, ast.FunctionDef) and f'{ch.name}.{mth.name}' not in rf and ('m', mth.name) not in self.new \
+                                                    and not any(isinstance(x, ast.FunctionDef) and x.name == mth.name for c_ in ast.walk(tree) if isinstance(c_, ast.ClassDef) for x in c_.body):
+                                                try:
+                                                    self.new[('m', mth.name)] = Helper(f'{rp}:{ch.name}.{mth.name}', mth, ch.name)
+                                                except NotInlinable as e:
+                                                    self.skipped.append((mth.name, str(e)))
                         if al.name == '*' or al.name[:1].isupper() or ('f', al.asname or al.name) in self.new:
                             continue
                         for rp in cand:
